@@ -282,6 +282,25 @@ def m_char_to_digit(ex, m, argv, guard, st, callee):
     return guard, option(ex, z3.ULT(d, bv(r, 32)), d)
 
 
+def m_option_transpose(ex, m, argv, guard, st, callee):
+    """Option<Result<T, E>> -> Result<Option<T>, E>"""
+    o = argv[0]
+    opt, res = ex.defs.find_enum('Option'), ex.defs.find_enum('Result')
+    none = EnumV(opt, bv(0, 64), {'None': ()})
+    if 'Some' not in o.variants:
+        return guard, EnumV(res, bv(0, 64), {'Ok': (none,)})
+    r = o.variants['Some'][0]
+    is_some = option_is_some(o)
+    is_err = zand(is_some, r.discr == bv(1, 64))
+    vs = {}
+    ok_inner = EnumV(opt, zite(is_some, bv(1, 64), bv(0, 64)),
+                     {'None': (), 'Some': (r.variants['Ok'][0],)} if 'Ok' in r.variants else {'None': ()})
+    vs['Ok'] = (ok_inner,)
+    if 'Err' in r.variants:
+        vs['Err'] = (r.variants['Err'][0],)
+    return guard, EnumV(res, zite(is_err, bv(1, 64), bv(0, 64)), vs)
+
+
 def m_option_is(ex, m, argv, guard, st, callee):
     o = deref_any(ex, st, argv[0])
     r = option_is_some(o)
@@ -776,7 +795,129 @@ def _vec_get(ex, st, ref):
     return v
 
 
+# ---- heap Vec with explicit storage cell and initialisation flags (for code that uses spare capacity + set_len)
+def _concretize(ex, t, what):
+    """A term that the harness preconditions force to a single value is replaced by that value."""
+    t2 = zsimp(t)
+    if z3.is_bv_value(t2):
+        return t2.as_long()
+    ex.solver.push()
+    r = ex.solver.check()
+    if r != z3.sat:
+        ex.solver.pop()
+        raise Unsupported("cannot concretize %s" % what)
+    c = ex.solver.model().eval(t2, model_completion=True)
+    ex.solver.add(t2 != c)
+    r = ex.solver.check()
+    ex.solver.pop()
+    if r != z3.unsat:
+        raise Unsupported("%s is not determined by the preconditions" % what)
+    return c.as_long()
+
+
+def _upper_bound(ex, t, what):
+    """Smallest bound of the form 2^k (k <= 12) that the preconditions force on t."""
+    t2 = zsimp(t)
+    if z3.is_bv_value(t2):
+        return t2.as_long()
+    b = 1
+    while b <= 4096:
+        ex.solver.push()
+        ex.solver.add(z3.UGT(t2, bv(b, t2.size())))
+        r = ex.solver.check()
+        ex.solver.pop()
+        if r == z3.unsat:
+            return b
+        b *= 2
+    raise Unsupported("%s is not bounded by 4096 under the preconditions" % what)
+
+
+def m_hvec_with_capacity(ex, m, argv, guard, st, callee):
+    slots = _upper_bound(ex, argv[0], 'Vec capacity')
+    if slots > 4096:
+        raise Unsupported("Vec::with_capacity(%d) exceeds the model" % slots)
+    ex.fresh_n += 1
+    cell = (0, 'heap%d' % ex.fresh_n)
+    slots += 4      # room for Vec::push to grow beyond the requested capacity
+    # states with different allocation histories are never merged (their Vecs live in different cells)
+    st.ckey[(0, 'allocs')] = hash((st.ckey.get((0, 'allocs'), 0), ex.fresh_n + 1)) & 0xFFFFFFFFFFFF
+    st.mem[cell] = Agg([None] * slots, 'heap')
+    st.mem[(0, cell[1] + '#init')] = Agg([FALSE] * slots, 'initflags')
+    return guard, Model('hvec', store=cell, len=bv(0, 64), cap=zsimp(argv[0]))
+
+
+def _hvec(ex, st, ref):
+    v = deref_any(ex, st, ref)
+    if isinstance(v, Model) and v.kind == 'hvec':
+        return v
+    return None
+
+
+def _set_init(ex, st, cell, idx, value=TRUE):
+    fcell = (0, cell[1] + '#init')
+    flags = st.mem.get(fcell)
+    if flags is None:
+        return
+    i = zsimp(idx)
+    fs = list(flags.fields)
+    if z3.is_bv_value(i):
+        if i.as_long() < len(fs):
+            fs[i.as_long()] = value
+    else:
+        fs = [zite(i == bv(k, 64), value, f) for k, f in enumerate(fs)]
+    st.mem[fcell] = Agg(fs, 'initflags')
+
+
+def m_hvec_spare(ex, m, argv, guard, st, callee):
+    v = _hvec(ex, st, argv[0])
+    if v is None:
+        raise Unsupported("spare_capacity_mut on a non-heap Vec model")
+    ln = zsimp(v.f['len'])
+    if not (z3.is_bv_value(ln) and ln.as_long() == 0):
+        raise Unsupported("spare_capacity_mut on a non-empty Vec")
+    return guard, MutSliceRef(v.f['store'], (), v.f['cap'])
+
+
+def m_hvec_set_len(ex, m, argv, guard, st, callee):
+    ref = argv[0]
+    v = ex.read_ref(st, ref)
+    if not (isinstance(v, Model) and v.kind == 'hvec'):
+        raise Unsupported("set_len on a non-heap Vec model")
+    n = argv[1]
+    ex.oblige('panic', zand(guard, z3.UGT(n, v.f['cap'])), 'Vec::set_len beyond the capacity')
+    flags = st.mem[(0, v.f['store'][1] + '#init')].fields
+    uninit = zor(*[zand(z3.ULT(bv(k, 64), n), znot(f)) for k, f in enumerate(flags)])
+    ex.oblige('uninit', zand(guard, uninit), 'Vec::set_len exposes a slot that was never written')
+    ex.write_cell(st, ref.cell, ref.path, Model('hvec', store=v.f['store'], len=n, cap=v.f['cap']))
+    return guard, UNIT
+
+
+def m_hvec_shrink(ex, m, argv, guard, st, callee):
+    return guard, UNIT
+
+
 def m_vec_len(ex, m, argv, guard, st, callee):
+    hv = _hvec(ex, st, argv[0])
+    if hv is not None:
+        return guard, hv.f[{'len': 'len', 'capacity': 'cap'}[m.group(1)]]
+    return _m_vec_len(ex, m, argv, guard, st, callee)
+
+
+def m_hvec_push(ex, st, ref, v, val, guard):
+    ln = v.f['len']
+    cell = v.f['store']
+    nslots = len(st.mem[cell].fields)
+    full = zsimp(z3.UGE(ln, bv(nslots, 64)))
+    ex.oblige('bound', zand(guard, full), 'heap Vec model has no slot left for a growing push')
+    guard = zand(guard, znot(full))
+    ex.write_cell(st, cell, (('idx', ln),), val)
+    _set_init(ex, st, cell, ln)
+    newcap = zsimp(zite(z3.UGE(ln, v.f['cap']), ln + bv(1, 64), v.f['cap']))     # push grows the Vec when full
+    ex.write_cell(st, ref.cell, ref.path, Model('hvec', store=cell, len=zsimp(ln + bv(1, 64)), cap=newcap))
+    return guard, UNIT
+
+
+def _m_vec_len(ex, m, argv, guard, st, callee):
     v = _vec_get(ex, st, argv[0])
     return guard, v.f[{'len': 'len', 'capacity': 'cap'}[m.group(1)]]
 
@@ -786,6 +927,8 @@ def m_vec_push(ex, m, argv, guard, st, callee):
     if not isinstance(ref, PlaceRef):
         raise Unsupported("Vec::push through %s" % type(ref).__name__)
     v = ex.read_ref(st, ref)
+    if isinstance(v, Model) and v.kind == 'hvec':
+        return m_hvec_push(ex, st, ref, v, argv[1], guard)
     items = list(v.f['items'].fields)
     n = len(items)
     ln = zsimp(v.f['len'])
@@ -866,6 +1009,8 @@ def m_maybeuninit_write(ex, m, argv, guard, st, callee):
     if not isinstance(ref, PlaceRef):
         raise Unsupported("MaybeUninit::write through %s" % type(ref).__name__)
     ex.write_cell(st, ref.cell, ref.path, argv[1])
+    if len(ref.path) == 1 and ref.path[0][0] == 'idx' and isinstance(ref.cell[1], str):
+        _set_init(ex, st, ref.cell, ref.path[0][1])
     return guard, ref
 
 
@@ -880,6 +1025,11 @@ def register(ex):
     _EX[0] = ex
     A = ex.add_model
     A(r'^(?:std::vec::)?Vec::<.*>::(len|capacity)$', m_vec_len, 'Vec::len/capacity (fixed-slot model)')
+    A(r'^(?:std::vec::)?Vec::<.*>::with_capacity$', m_hvec_with_capacity, 'Vec::with_capacity (heap model with initialisation flags)')
+    A(r'^(?:std::vec::)?Vec::<.*>::spare_capacity_mut$', m_hvec_spare, 'Vec::spare_capacity_mut')
+    A(r'^(?:std::vec::)?Vec::<.*>::set_len$', m_hvec_set_len, 'Vec::set_len (obligations: within capacity, every exposed slot written)')
+    A(r'^(?:std::vec::)?Vec::<.*>::shrink_to_fit$', m_hvec_shrink, 'Vec::shrink_to_fit (no-op)')
+    A(r'^<str as (?:std::string::)?ToString>::to_string$', lambda ex, m, a, g, s, c: (g, Opaque('String')), 'str::to_string (opaque)')
     A(r'^(?:enumset::)?EnumSet::<.*>::(remove|insert)$', m_enumset_remove, 'EnumSet::remove/insert (bit set)')
     A(r'^(?:enumset::)?EnumSet::<.*>::contains$', m_enumset_contains, 'EnumSet::contains (bit set)')
     A(r'^(?:enumset::)?EnumSet::<.*>::is_empty$', m_enumset_is_empty, 'EnumSet::is_empty (bit set)')
@@ -896,8 +1046,9 @@ def register(ex):
     A(r'^(?:std::boxed::)?Box::<.*>::new$', m_box_new, 'Box::new')
     A(r'^<(\{closure@[^}]*\}) as (?:std::ops::)?Fn(?:Mut|Once)?<.*>>::call(?:_mut|_once)?$', m_closure_call, 'closure call (inlined body)')
     A(r'^(?:std::option::)?Option::<.*>::map_or::<.*>$', m_option_map_or, 'Option::map_or')
+    A(r'^(?:std::option::)?Option::<.*>::transpose$', m_option_transpose, 'Option::transpose')
     A(r'^(?:std::option::)?Option::<.*>::map::<.*>$', m_option_map, 'Option::map')
-    A(r'^core::slice::<impl \\[.*\\]>::(get|first|last)(?:::<usize>)?$', m_slice_get, 'slice get/first/last')
+    A(r'^core::slice::<impl \[.*\]>::(get|first|last)(?:::<usize>)?$', m_slice_get, 'slice get/first/last')
     A(r'^(?:std::)?char::methods::<impl char>::to_digit$', m_char_to_digit, 'char::to_digit (constant radix)')
     A(r'^(?:std::option::)?Option::<.*>::(is_some|is_none)$', m_option_is, 'Option::is_some/is_none')
     A(r'^(?:std::option::)?Option::<.*>::(unwrap|expect)$', m_option_unwrap, 'Option::unwrap/expect')
